@@ -38,6 +38,15 @@ ENV_PROGRAMS = [
 
 def gen_profile(ch, always_da1=None):
     name, version, fmt, kg, it = ch.pick("ident", IDENTITIES)
+    if name in ("kitty", "Konsole") and ch.bool("seeded_version", 0.5):
+        # versions around (and well away from) the documented thresholds, incl. a small minor
+        # number under a large major one
+        if name == "kitty":
+            version = "0.%d.%d" % (ch.int("kminor", 17, 33), ch.int("kpatch", 0, 3))
+        else:
+            version = "%d.%02d.%d" % (ch.int("kyear", 21, 25),
+                                      ch.pick("kmonth", (1, 2, 3, 4, 5, 8, 11, 12)),
+                                      ch.pick("kpatch", (0, 1, 2, 3, 80, 90)))
     answers = set()
     for q, p in (("da1", 0.9), ("xtversion", 0.8), ("osc10", 0.8), ("osc11", 0.8),
                  ("14t", 0.75), ("16t", 0.6)):
